@@ -31,6 +31,8 @@ func init() {
 				Doc: "The encoder is finished before its compressor is handed back: Close calls compressor.Close() (trailer) before releasing, releases once, clears the field (same obligation as C13.a). A compressor released early is reset by the next response while this one still has unflushed data."},
 			{ID: "C07.e", Template: "T-DEFER", Required: true, Run: ruleC07e,
 				Doc: "In each install function a defer that closes the active writer when it is a *CompressingResponseWriter is registered on a block dominating the install: the trailer is written on normal, error and panic exits, exactly once (Close itself refuses a second close, C13.a)."},
+			{ID: "C07.j", Template: "T-PROV", Required: false, Run: ruleRegisteredHandlerEncodes,
+				Doc: "'Through Handle and HandleWithFilter': what the module registers on the ServeMux for a plain handler is, as a whole, the function that installs the compressor, so that the container filters of HandleWithFilter run inside it. Wrapping only the innermost handler leaves a filter's own bytes outside the encoded stream."},
 			{ID: "C07.i", Template: "T-SINK", Required: true, Run: ruleC07i,
 				Doc: "Body bytes reach the wrapped writer only through the compressor: no method with a []byte, string or io.Reader parameter (Write, WriteString, ReadFrom) is invoked on the wrapped writer of the compressing writer, directly or after a type assertion, and it is handed only to the compress packages. A forwarded ReadFrom fast path sends raw bytes under a gzip label; httptest.ResponseRecorder has no ReadFrom, so no test can see it."},
 			{ID: "C07.h", Template: "T-SINK", Required: true, Run: ruleNoDeclaredLength,
